@@ -21,11 +21,10 @@ package deflate
 //@   ensures[C12 zero] bufZero(b)
 
 //@ func (*BitBuf).WriteBit
-//@   requires bufOK(b) && b.bitLen < 64 && count <= 16 && uint64(code) < 1<<count
+//@   requires bufOK(b) && count <= 16 && uint64(code) < 1<<count
 //@   requires b.bitLen + int(count) <= 64 || b.idx + 8 <= len(b.output)
 //@   modifies b.bits, b.bitLen, b.idx, b.output[*]
 //@   ensures[C01 C10 append] nbits(b) == old(nbits(b)) + int(count)
-//@   ensures bufOK(b) && b.bitLen < 64 || (b.bitLen == 64 && old(b.bitLen) + int(count) == 64)
 //@   ensures bufOK(b)
 //@   ensures old(b.bitLen) + int(count) <= 64 ==> b.idx == old(b.idx)
 //@   ensures b.idx <= old(b.idx) + 8
@@ -40,14 +39,14 @@ package deflate
 //@   loop 1 decreases b.bitLen
 
 //@ func (*BitBuf).writeEmptyBlock
-//@   requires bufOK(b) && b.bitLen < 64 && b.idx + 20 <= len(b.output)
+//@   requires bufOK(b) && b.idx + 20 <= len(b.output)
 //@   modifies b.bits, b.bitLen, b.idx, b.output[*]
 //@   ensures[C10 marker] b.bitLen == 0 && b.bits == 0 && bufOK(b)
 //@   ensures[C10 marker-bytes] b.idx >= 4 && b.output[b.idx-4] == 0 && b.output[b.idx-3] == 0 && b.output[b.idx-2] == 255 && b.output[b.idx-1] == 255
 //@   ensures b.idx == old(b.idx) + (old(b.bitLen)+3+7)/8 + 4
 
 //@ func (*BitBuf).writeFinalEmptyBlock
-//@   requires bufOK(b) && b.bitLen < 64 && b.idx + 20 <= len(b.output)
+//@   requires bufOK(b) && b.idx + 20 <= len(b.output)
 //@   modifies b.bits, b.bitLen, b.idx, b.output[*]
 //@   ensures[C01 final-marker] b.bitLen == 0 && b.bits == 0 && bufOK(b)
 //@   ensures b.idx == old(b.idx) + (old(b.bitLen)+3+7)/8 + 4
@@ -100,7 +99,7 @@ package deflate
 //@ pure dynShape(c *dynCompressor) bool = (c.windowSize == 4096 || c.windowSize == 32768) && len(c.buffer) == 2*c.windowSize+261 && cap(c.tokens) >= 32768 && len(c.buf.output) == 8192 && c.hdr != nil && c.litGen != nil && c.distGen != nil && lzShape(c.lz77, c.windowSize) && histAlias(c)
 // dynOK: representation invariant between public operations (no sticky error).
 //@ pure dynPos(c *dynCompressor) bool = (typeis(c.lz77, *level1context) ==> posInv(c.lz77.(*level1context).table[:], c.windowSize, c.processed - c.idx, c.idx, 0)) && (typeis(c.lz77, *level2context) ==> posInv(c.lz77.(*level2context).table[:], c.windowSize, c.processed - c.idx, c.idx, 0))
-//@ pure dynOK(c *dynCompressor) bool = dynShape(c) && dynPos(c) && c.w != nil && 0 <= c.idx && c.idx <= c.end && c.end <= 2*c.windowSize+258 && len(c.tokens) < 32767 && bufOK(&c.buf) && c.buf.idx == 0 && c.buf.bitLen < 64
+//@ pure dynOK(c *dynCompressor) bool = dynShape(c) && dynPos(c) && tokensOK(c.tokens) && c.w != nil && 0 <= c.idx && c.idx <= c.end && c.end <= 2*c.windowSize+258 && len(c.tokens) < 32767 && bufOK(&c.buf) && c.buf.idx == 0
 // dynFresh: the state NewDynCompressor establishes and Reset must re-establish.
 //@ pure dynFresh(c *dynCompressor) bool = dynOK(c) && c.idx == 0 && c.end == 0 && c.processed == 0 && len(c.tokens) == 0 && bufZero(&c.buf) && lzZero(c.lz77)
 
@@ -130,12 +129,38 @@ package deflate
 //@   ensures[C09 trigger-iff-full] trigger == (c.end == 2*c.windowSize+258)
 //@   ensures[C09 progress] n == len(data) || trigger
 
+// histogram after GenerateCode2, before expandCodes: |code|length<<24| with length <= 15 for the 286 lit/len and 30 distance symbols
+//@ pure preEntryOK(e uint32) bool = e>>24 <= 15 && (e & 16777215) >> (e>>24) == 0
+//@ pure histPreOK(h *histogram) bool = (forall x :: 0 <= x && x < 286 ==> preEntryOK(h.literalCodes[x])) && (forall d :: 0 <= d && d < 30 ==> preEntryOK(h.distanceCodes[d]))
+
+//@ func (*dynCompressor).genHuffCodes
+//@   trusted "not yet verified: histogram reduction and length-limited Huffman code generation (huffman package)"
+//@   requires c.hist != nil && c.litGen != nil && c.distGen != nil
+//@   modifies *c.hist, **c.litGen, **c.distGen
+//@   ensures histPreOK(c.hist)
+
+//@ func (*dynamicHeader).writeTo
+//@   trusted "not yet verified: dynamic block header (code length alphabet, run-length coding)"
+//@   requires histogram != nil && b != nil && bufOK(b) && b.idx + 1024 <= len(b.output) && histPreOK(histogram)
+//@   modifies **c, b.idx, b.bits, b.bitLen, b.output[*]
+//@   ensures bufOK(b) && b.idx >= old(b.idx) && b.idx <= old(b.idx) + 1000
+
+//@ func (*histogram).expandCodes
+//@   requires histPreOK(h)
+//@   modifies h.literalCodes, h.distanceCodes
+//@   ensures[C01 C14 expand] histCodesOK(h)
+//@   loop 1 invariant 1 <= bits && bits <= 6 && offset == 4*((1<<uint64(bits)) - 2) && idx == 4*(bits-1) && (forall x :: 0 <= x && x < 265 + offset ==> litEntryOK(h.literalCodes[x])) && (forall x :: 0 <= x && x < 256 ==> h.literalCodes[x]>>24 <= 15) && (forall q :: 0 <= q && q < 21 ==> preEntryOK(origin[q])) && (forall d :: 0 <= d && d < 30 ==> preEntryOK(h.distanceCodes[d]))
+//@   loop 2 invariant 1 <= bits && bits <= 5 && 0 <= i && i <= 4 && offset == 4*((1<<uint64(bits)) - 2) + i*(1<<uint64(bits)) && idx == 4*(bits-1) + i && (forall x :: 0 <= x && x < 265 + offset ==> litEntryOK(h.literalCodes[x])) && (forall x :: 0 <= x && x < 256 ==> h.literalCodes[x]>>24 <= 15) && (forall q :: 0 <= q && q < 21 ==> preEntryOK(origin[q])) && (forall d :: 0 <= d && d < 30 ==> preEntryOK(h.distanceCodes[d]))
+//@   loop 3 invariant 1 <= bits && bits <= 5 && 0 <= i && i < 4 && 0 <= j && j <= 1<<uint64(bits) && offset == 4*((1<<uint64(bits)) - 2) + i*(1<<uint64(bits)) + j && idx == 4*(bits-1) + i + 1 && length <= 15 && code>>length == 0 && code < 16777216 && (forall x :: 0 <= x && x < 265 + offset ==> litEntryOK(h.literalCodes[x])) && (forall x :: 0 <= x && x < 256 ==> h.literalCodes[x]>>24 <= 15) && (forall q :: 0 <= q && q < 21 ==> preEntryOK(origin[q])) && (forall d :: 0 <= d && d < 30 ==> preEntryOK(h.distanceCodes[d]))
+//@   loop 4 invariant 1 <= i && i <= 14 && x == 2 + 2*int(i) && (forall d :: 0 <= d && d < 30 ==> (d < x ==> distEntryOK(h.distanceCodes[d], uint32(d))) && (d >= x ==> preEntryOK(h.distanceCodes[d]))) && (forall y :: 0 <= y && y < 513 ==> litEntryOK(h.literalCodes[y])) && (forall y :: 0 <= y && y < 256 ==> h.literalCodes[y]>>24 <= 15)
+
 //@ func (*dynCompressor).encodeBlock
-//@   trusted "not yet verified: code generation, block header and token encoding below this call"
-//@   requires dynShape(c) && c.w != nil && len(c.tokens) <= 32768 && bufOK(&c.buf) && c.buf.bitLen < 64
+//@   requires dynShape(c) && c.w != nil && len(c.tokens) <= 32768 && tokensOK(c.tokens) && bufOK(&c.buf)
 //@   modifies c.tokens, c.tokens[*], c.buf, c.buf.output[*], **c.hdr, **c.litGen, **c.distGen, *c.hist, extWrites
-//@   ensures dynShape(c) && same(c.w)
-//@   ensures result == nil ==> len(c.tokens) == 0 && bufOK(&c.buf) && c.buf.idx == 0 && c.buf.bitLen < 64 && (last ==> c.buf.bitLen == 0)
+//@   ensures[C14 C16] dynShape(c) && same(c.w)
+//@   ensures[C10 C14 C16 block-done] result == nil ==> len(c.tokens) == 0 && bufOK(&c.buf) && c.buf.idx == 0 && (last ==> c.buf.bitLen == 0)
+//@   ensures[C12 hist-reset] result == nil ==> histZero(c.hist)
+//@   loop 1 invariant dynShape(c) && same(c.w) && 0 <= idx && idx <= len(c.tokens) && len(c.tokens) <= 40000 && tokensOK(c.tokens) && histCodesOK(c.hist) && bufOK(&c.buf) && c.buf.idx + 1024 <= len(c.buf.output) && len(c.buf.output) == 8192 && len(c.tokens) >= 1 && (idx > 0 ==> c.buf.idx == 0) && (idx == len(c.tokens) && last ==> c.buf.bitLen == 0)
 
 //@ func (*dynCompressor).compressBlock
 //@   requires dynOK(w)
@@ -145,7 +170,7 @@ package deflate
 //@   ensures[C10 consumed-on-flush] err == nil && flush && !(finalBlock && w.end == 0) ==> w.idx == w.end && len(w.tokens) == 0
 //@   ensures[C01 C10 final-aligned] err == nil && flush && finalBlock ==> w.buf.bitLen == 0
 //@   ensures[C09 no-flush-progress] err == nil && !flush ==> w.idx + 8 >= w.end
-//@   loop 1 invariant dynShape(w) && dynPos(w) && w.w != nil && 0 <= w.idx && w.idx <= w.end && w.end <= 2*w.windowSize+258 && len(w.tokens) < 32767 && bufOK(&w.buf) && w.buf.idx == 0 && w.buf.bitLen < 64 && same(w.w) && same(w.windowSize) && same(w.end) && !(finalBlock && w.end == 0)
+//@   loop 1 invariant dynShape(w) && dynPos(w) && w.w != nil && 0 <= w.idx && w.idx <= w.end && w.end <= 2*w.windowSize+258 && len(w.tokens) < 32767 && tokensOK(w.tokens) && bufOK(&w.buf) && w.buf.idx == 0 && same(w.w) && same(w.windowSize) && same(w.end) && !(finalBlock && w.end == 0)
 
 //@ func (*dynCompressor).Compress
 //@   requires dynOK(w)
@@ -170,7 +195,7 @@ package deflate
 // ---------------------------------------------------------------------------
 
 //@ pure huffShape(h *huffmanOnly) bool = len(h.buffer) == 65536 && h.max == 65536 && len(h.buf.output) == 8192 && h.hdr != nil && h.litGen != nil
-//@ pure huffOK(h *huffmanOnly) bool = huffShape(h) && h.w != nil && 0 <= h.offset && h.offset <= h.max && bufOK(&h.buf) && h.buf.idx == 0 && h.buf.bitLen < 64
+//@ pure huffOK(h *huffmanOnly) bool = huffShape(h) && h.w != nil && 0 <= h.offset && h.offset <= h.max && bufOK(&h.buf) && h.buf.idx == 0
 //@ pure huffFresh(h *huffmanOnly) bool = huffOK(h) && h.offset == 0 && bufZero(&h.buf)
 
 //@ func NewHuffmanOnly
@@ -314,6 +339,7 @@ package deflate
 //@ func newToken
 //@   modifies nothing
 //@   ensures[C01 fields] uint32(result) == litLen | dist<<10 | extra<<19
+//@   ensures[C01 tok-ok] litLen < 513 && dist < 287 && (dist < 30 ==> extra < uint32(1)<<distXBits(dist)) && (dist >= 30 ==> extra == 0) ==> tokOK(result)
 
 //@ func (*token).Extract
 //@   modifies nothing
@@ -339,13 +365,17 @@ package deflate
 //@ func lz77
 //@   requires lzPre(table, mask, historySize, input, processed, offset, tokens, maxToken) && hist != nil
 //@   requires[C01 pos-inv] posInv(table, historySize, processed - offset, offset, 0)
+//@   requires[C01 tokens-ok] tokensOK(tokens)
 //@   modifies table[*], hist.literalCodes, hist.distanceCodes, tokens[*]
 //@   alias ntokens tokens
 //@   ensures[C01 C16 progress] old(offset) <= nOffset && nOffset <= len(input) && len(tokens) <= len(ntokens) && len(ntokens) <= maxToken + 1 && cap(ntokens) == cap(tokens)
 //@   ensures[C01 C10 consumed] len(ntokens) <= maxToken ==> (flush ==> nOffset == len(input)) && (!flush ==> nOffset + 8 >= len(input))
 //@   ensures[C01 pos-inv] posInv(table, historySize, processed - old(offset), nOffset, 0)
+//@   ensures[C01 C14 tokens-ok] tokensOK(ntokens)
 //@   assert call append 3 [C01 C19 match-token] 3 <= matchLength && matchLength <= 258 && 1 <= dist && int(dist) <= historySize && int(dist) <= offset && offset + matchLength <= len(input)
-//@   assert call append 3 [C01 match-bytes] forall k :: 0 <= k && k < matchLength ==> input[offset-int(dist)+k] == input[offset+k]
+//@   assert call compare 1 [C01 first8] forall k :: 0 <= k && k < 8 ==> input[prev+k] == input[offset+k]
+//@   assert call TrailingZeros64 1 [C01 first-ctz] forall k :: 0 <= k && k < ctz64(test)/8 ==> input[prev+k] == input[offset+k]
+//@   assert call append 3 [C01 match-bytes] split(test != 0) forall k :: 0 <= k && k < matchLength ==> input[offset-int(dist)+k] == input[offset+k]
 //@   assert call append 3 [C01 C19 match-symbols] lengthSymbol == matchLength + 254 && distSymbol < 30 && extraBits < uint32(1)<<distXBits(distSymbol) && distBase(distSymbol) + extraBits == dist
 //@   assert call append 2 [C01 C19 run-token] 1 <= dist && int(dist) <= historySize && int(dist) <= offset - 258 && lengthSymbol == 512 && distSymbol < 30 && extraBits < uint32(1)<<distXBits(distSymbol) && distBase(distSymbol) + extraBits == dist
 //@   assert call append 2 [C01 run-bytes] forall k :: 0 <= k && k < 258 ==> input[offset-258-int(dist)+k] == input[offset-258+k]
@@ -353,18 +383,20 @@ package deflate
 //@   assert call append 4 [C01 flush-literal] 0 <= offset && offset < len(input)
 //@   loop 1 invariant old(offset) <= offset && offset <= len(input) && end == len(input) - 8 && relative == processed - old(offset) && len(tokens) <= maxToken && sameobj(tokens, old(tokens)) && cap(tokens) == old(cap(tokens)) && len(tokens) >= old(len(tokens))
 //@   loop 1 invariant posInv(table, historySize, relative, offset, 0)
+//@   loop 1 invariant tokensOK(tokens)
 //@   loop 2 invariant 0 <= i && i <= 3 && posInv(table, historySize, relative, offset, 2)
 //@   loop 3 invariant int(repeat) <= 300 && offset == atentry(offset) + 258*int(repeat) && matchLength == atentry(matchLength) - 258*int(repeat) && offset <= len(input) && matchLength <= len(input) && offset + matchLength <= end && end == len(input) - 8 && matchLength >= 0 && len(tokens) <= maxToken && sameobj(tokens, old(tokens)) && cap(tokens) == old(cap(tokens)) && len(tokens) >= old(len(tokens)) && 1 <= dist && int(dist) <= historySize && int(dist) <= offset
 //@   loop 3 invariant forall k :: 0 <= k && k < matchLength ==> input[offset-int(dist)+k] == input[offset+k]
+//@   loop 3 invariant tokensOK(tokens) && tokOK(token)
 //@   loop 4 invariant 0 <= i && i <= 3 && posInv(table, historySize, relative, offset, 2)
-//@   loop 5 invariant old(offset) <= offset && offset <= len(input) && len(tokens) <= maxToken && sameobj(tokens, old(tokens)) && cap(tokens) == old(cap(tokens)) && len(tokens) >= old(len(tokens)) && posInv(table, historySize, relative, offset, 0) && offset + 8 >= len(input)
+//@   loop 5 invariant old(offset) <= offset && offset <= len(input) && len(tokens) <= maxToken && sameobj(tokens, old(tokens)) && cap(tokens) == old(cap(tokens)) && len(tokens) >= old(len(tokens)) && posInv(table, historySize, relative, offset, 0) && offset + 8 >= len(input) && tokensOK(tokens)
 
 // ---------------------------------------------------------------------------
 // lz77compressor implementations (dispatch to lz77 / assembly)
 // ---------------------------------------------------------------------------
 
-//@ pure genPre1(c *level1context, input []byte, processed int, offset int, tokens []token, maxToken int) bool = (c.windowLevel == 12 || c.windowLevel == 15) && len(input) <= 65794 && 0 <= offset && offset <= len(input) && 4 <= maxToken && maxToken <= 32767 && len(tokens) <= maxToken && cap(tokens) >= 32768 && posInv(c.table[:], 1<<uint64(c.windowLevel), processed - offset, offset, 0)
-//@ pure genPre2(c *level2context, input []byte, processed int, offset int, tokens []token, maxToken int) bool = (c.windowLevel == 12 || c.windowLevel == 15) && len(input) <= 65794 && 0 <= offset && offset <= len(input) && 4 <= maxToken && maxToken <= 32767 && len(tokens) <= maxToken && cap(tokens) >= 32768 && posInv(c.table[:], 1<<uint64(c.windowLevel), processed - offset, offset, 0)
+//@ pure genPre1(c *level1context, input []byte, processed int, offset int, tokens []token, maxToken int) bool = (c.windowLevel == 12 || c.windowLevel == 15) && len(input) <= 65794 && 0 <= offset && offset <= len(input) && 4 <= maxToken && maxToken <= 32767 && len(tokens) <= maxToken && cap(tokens) >= 32768 && posInv(c.table[:], 1<<uint64(c.windowLevel), processed - offset, offset, 0) && tokensOK(tokens)
+//@ pure genPre2(c *level2context, input []byte, processed int, offset int, tokens []token, maxToken int) bool = (c.windowLevel == 12 || c.windowLevel == 15) && len(input) <= 65794 && 0 <= offset && offset <= len(input) && 4 <= maxToken && maxToken <= 32767 && len(tokens) <= maxToken && cap(tokens) >= 32768 && posInv(c.table[:], 1<<uint64(c.windowLevel), processed - offset, offset, 0) && tokensOK(tokens)
 
 //@ func (*level1context).generate
 //@   requires genPre1(c, input, processed, offset, tokens, maxToken)
@@ -373,6 +405,7 @@ package deflate
 //@   ensures[C01 C16 progress] old(offset) <= nOffset && nOffset <= len(input) && len(tokens) <= len(ntokens) && len(ntokens) <= maxToken + 1 && cap(ntokens) == cap(tokens) && same(c.windowLevel)
 //@   ensures[C01 C10 consumed] len(ntokens) <= maxToken ==> (flush ==> nOffset == len(input)) && (!flush ==> nOffset + 8 >= len(input))
 //@   ensures[C01 pos-inv] posInv(c.table[:], 1<<uint64(c.windowLevel), processed - old(offset), nOffset, 0)
+//@   ensures[C01 C14 tokens-ok] tokensOK(ntokens)
 
 //@ func (*level2context).generate
 //@   requires genPre2(c, input, processed, offset, tokens, maxToken)
@@ -381,37 +414,94 @@ package deflate
 //@   ensures[C01 C16 progress] old(offset) <= nOffset && nOffset <= len(input) && len(tokens) <= len(ntokens) && len(ntokens) <= maxToken + 1 && cap(ntokens) == cap(tokens) && same(c.windowLevel)
 //@   ensures[C01 C10 consumed] len(ntokens) <= maxToken ==> (flush ==> nOffset == len(input)) && (!flush ==> nOffset + 8 >= len(input))
 //@   ensures[C01 pos-inv] posInv(c.table[:], 1<<uint64(c.windowLevel), processed - old(offset), nOffset, 0)
+//@   ensures[C01 C14 tokens-ok] tokensOK(ntokens)
 
 // Assembly match finders (lz77_amd64.s): assumed to satisfy the contract of the Go lz77 for their window and table size.
 //@ func lz77Asm4kL12V1
 //@   trusted "assembly (lz77_amd64.s): assumed equivalent to lz77 with mask 4095, historySize 4096, never flushing the tail"
 //@   requires base != nil && base.windowLevel == 12 && len(input) <= 65794 && 0 <= offset && offset <= len(input) && 0 <= maxToken && maxToken <= 32763 && len(tokens) + 4 <= cap(tokens) && cap(tokens) >= 32768
-//@   requires[C01 pos-inv] posInv(base.table[:], 4096, processed - offset, offset, 0)
+//@   requires[C01 pos-inv] posInv(base.table[:], 4096, processed - offset, offset, 0) && tokensOK(tokens)
 //@   modifies base.table, base.hist, tokens[*]
 //@   alias ntokens tokens
 //@   ensures old(offset) <= nOffset && nOffset <= len(input) && len(tokens) <= len(ntokens) && len(ntokens) <= maxToken + 4 && cap(ntokens) == cap(tokens)
-//@   ensures posInv(base.table[:], 4096, processed - old(offset), nOffset, 0)
+//@   ensures posInv(base.table[:], 4096, processed - old(offset), nOffset, 0) && tokensOK(ntokens)
 //@ func lz77Asm32kL12V1
 //@   trusted "assembly (lz77_amd64.s): assumed equivalent to lz77 with mask 4095, historySize 32768, never flushing the tail"
 //@   requires base != nil && base.windowLevel == 15 && len(input) <= 65794 && 0 <= offset && offset <= len(input) && 0 <= maxToken && maxToken <= 32763 && len(tokens) + 4 <= cap(tokens) && cap(tokens) >= 32768
-//@   requires[C01 pos-inv] posInv(base.table[:], 32768, processed - offset, offset, 0)
+//@   requires[C01 pos-inv] posInv(base.table[:], 32768, processed - offset, offset, 0) && tokensOK(tokens)
 //@   modifies base.table, base.hist, tokens[*]
 //@   alias ntokens tokens
 //@   ensures old(offset) <= nOffset && nOffset <= len(input) && len(tokens) <= len(ntokens) && len(ntokens) <= maxToken + 4 && cap(ntokens) == cap(tokens)
-//@   ensures posInv(base.table[:], 32768, processed - old(offset), nOffset, 0)
+//@   ensures posInv(base.table[:], 32768, processed - old(offset), nOffset, 0) && tokensOK(ntokens)
 //@ func lz77Asm4kL15V1
 //@   trusted "assembly (lz77_amd64.s): assumed equivalent to lz77 with mask 32767, historySize 4096, never flushing the tail"
 //@   requires base != nil && base.windowLevel == 12 && len(input) <= 65794 && 0 <= offset && offset <= len(input) && 0 <= maxToken && maxToken <= 32763 && len(tokens) + 4 <= cap(tokens) && cap(tokens) >= 32768
-//@   requires[C01 pos-inv] posInv(base.table[:], 4096, processed - offset, offset, 0)
+//@   requires[C01 pos-inv] posInv(base.table[:], 4096, processed - offset, offset, 0) && tokensOK(tokens)
 //@   modifies base.table, base.hist, tokens[*]
 //@   alias ntokens tokens
 //@   ensures old(offset) <= nOffset && nOffset <= len(input) && len(tokens) <= len(ntokens) && len(ntokens) <= maxToken + 4 && cap(ntokens) == cap(tokens)
-//@   ensures posInv(base.table[:], 4096, processed - old(offset), nOffset, 0)
+//@   ensures posInv(base.table[:], 4096, processed - old(offset), nOffset, 0) && tokensOK(ntokens)
 //@ func lz77Asm32kL15V1
 //@   trusted "assembly (lz77_amd64.s): assumed equivalent to lz77 with mask 32767, historySize 32768, never flushing the tail"
 //@   requires base != nil && base.windowLevel == 15 && len(input) <= 65794 && 0 <= offset && offset <= len(input) && 0 <= maxToken && maxToken <= 32763 && len(tokens) + 4 <= cap(tokens) && cap(tokens) >= 32768
-//@   requires[C01 pos-inv] posInv(base.table[:], 32768, processed - offset, offset, 0)
+//@   requires[C01 pos-inv] posInv(base.table[:], 32768, processed - offset, offset, 0) && tokensOK(tokens)
 //@   modifies base.table, base.hist, tokens[*]
 //@   alias ntokens tokens
 //@   ensures old(offset) <= nOffset && nOffset <= len(input) && len(tokens) <= len(ntokens) && len(ntokens) <= maxToken + 4 && cap(ntokens) == cap(tokens)
-//@   ensures posInv(base.table[:], 32768, processed - old(offset), nOffset, 0)
+//@   ensures posInv(base.table[:], 32768, processed - old(offset), nOffset, 0) && tokensOK(ntokens)
+
+// ---------------------------------------------------------------------------
+// histogram in code mode, token encoding
+// ---------------------------------------------------------------------------
+
+//@ func (*histogram).distCode
+//@   requires dist < 544
+//@   modifies nothing
+//@   ensures[C01 C14 flat-index] dist < 31 ==> code == h.distanceCodes[dist] & 65535 && count == h.distanceCodes[dist] >> 24 && extraCount == (h.distanceCodes[dist] >> 16) & 255
+//@   ensures[C01 C14 flat-index] dist >= 31 ==> code == h.literalCodes[dist-31] & 65535 && count == h.literalCodes[dist-31] >> 24 && extraCount == (h.literalCodes[dist-31] >> 16) & 255
+
+// A token is well formed when its literal/length symbol indexes the lit/len table, and the distance field is
+// either a distance symbol (0..29) with extra bits that fit the symbol, or 30 (literal / end of block), or
+// (tokens produced by the assembly match finders only) 31+x for a second literal x.
+//@ pure tokOK(t token) bool = uint32(t)&1023 < 513 && ((uint32(t)>>10)&511 < 30 ==> uint32(t)>>19 < uint32(1)<<distXBits((uint32(t)>>10)&511)) && ((uint32(t)>>10)&511 >= 30 ==> uint32(t)>>19 == 0) && ((uint32(t)>>10)&511 >= 31 ==> (uint32(t)>>10)&511 < 31+256)
+//@ pure tokensOK(ts []token) bool = forall j :: 0 <= j && j < len(ts) ==> tokOK(ts[j])
+
+// histogram in code mode (after GenerateCode2 and expandCodes): |code 0-23|length 24-31| for lit/len entries,
+// |code 0-15|extra-bit count 16-23|length 24-31| for distance entries; entry 30 (no distance) is zero.
+//@ pure litEntryOK(e uint32) bool = e>>24 <= 20 && (e & 16777215) >> (e>>24) == 0
+//@ pure distEntryOK(e uint32, d uint32) bool = e>>24 <= 15 && (e & 65535) >> (e>>24) == 0 && (e>>16)&255 == distXBits(d)
+//@ pure histCodesOK(h *histogram) bool = (forall x :: 0 <= x && x < 513 ==> litEntryOK(h.literalCodes[x])) && (forall x :: 0 <= x && x < 256 ==> h.literalCodes[x]>>24 <= 15) && (forall d :: 0 <= d && d < 30 ==> distEntryOK(h.distanceCodes[d], uint32(d))) && h.distanceCodes[30] == 0
+
+//@ func encodeTokens
+//@   requires hist != nil && buf != nil && len(tokens) <= 40000 && tokensOK(tokens) && histCodesOK(hist)
+//@   requires bufOK(buf) && len(buf.output) <= 1073741824
+//@   modifies buf.idx, buf.bits, buf.bitLen, buf.output[*]
+//@   ensures[C01 C14 progress] 0 <= tokenNum && (len(tokens) > 0 ==> tokenNum <= len(tokens))
+//@   ensures[C01 C14 buf-inv] bufOK(buf) && buf.idx >= old(buf.idx) && (len(tokens) > 0 ==> buf.idx < len(buf.output) || tokenNum == 0)
+//@   ensures tokenNum == 0 ==> same(buf.idx) && same(buf.bits) && same(buf.bitLen)
+//@   ensures[cfg:amd64] len(tokens) == 0 ==> tokenNum == 0
+//@   loop 1 invariant rangeindex < len(tokens) && (rangeindex == -1 ==> tokenIdx == 0) && (rangeindex >= 0 ==> tokenIdx == rangeindex) && 0 <= idx && idx < end && end == len(output) - 8 && 0 <= bitLen && bitLen <= 64 && (bitLen == 64 || bits>>uint64(bitLen) == 0) && idx >= old(buf.idx) && same(buf.idx) && same(buf.bits) && same(buf.bitLen) && same(buf.output) && sameobj(output, buf.output) && len(output) == len(buf.output)
+
+// token encoders selected at start-up (encode_amd64.go): assembly variants are assumed to satisfy encodeTokens' contract
+//@ funcvar asmTokenEncoder
+//@   params hist, tokens, buf -> n
+//@   trusted "assembly token encoders (encode_amd64.s, encodev3_amd64.s) or encodeTokens: assumed to satisfy the contract of the Go encodeTokens"
+//@   requires hist != nil && buf != nil && len(tokens) <= 40000 && tokensOK(tokens) && histCodesOK(hist) && bufOK(buf) && len(buf.output) <= 1073741824
+//@   modifies buf.idx, buf.bits, buf.bitLen, buf.output[*]
+//@   ensures 0 <= n && n <= len(tokens) && bufOK(buf) && buf.idx >= old(buf.idx) && (buf.idx < len(buf.output) || n == 0)
+//@   ensures n == 0 ==> same(buf.idx) && same(buf.bits) && same(buf.bitLen)
+
+//@ func optimizedEncodeTokens
+//@   requires hist != nil && buf != nil && len(tokens) > 0 && len(tokens) <= 40000 && tokensOK(tokens) && histCodesOK(hist)
+//@   requires bufOK(buf) && buf.idx + 8 <= len(buf.output) && len(buf.output) <= 1073741824
+//@   modifies buf.idx, buf.bits, buf.bitLen, buf.output[*]
+//@   ensures[C01 C14 progress] 0 <= tokenNum && tokenNum <= len(tokens)
+//@   ensures[C01 C14 buf-inv] bufOK(buf) && buf.idx >= old(buf.idx) && buf.idx < len(buf.output) + 8
+
+// ---------------------------------------------------------------------------
+// package-level tables (written only by the package initializer)
+// ---------------------------------------------------------------------------
+
+//@ globalinv[C01 eob-token] uint32(endOfBlock) == 256 | 30<<10
+//@ globalinv[C01 hclen-order] len(hclenOrder) == 19 && (forall i :: 0 <= i && i < 19 ==> hclenOrder[i] < 19)
+//@ globalinv[C01 C19 disttable] len(disttable) == 32 && (forall s :: 0 <= s && s < 30 ==> disttable[s] == distBase(uint32(s)))
